@@ -67,6 +67,12 @@ def gen_cases(ctx, n, noise=True):
     rng = ctx.rng
     cases, skipped, ops = [], {}, {}
     while len(cases) < n:
+        if rng.random() < 0.08:
+            # GRAPH operators with different graph terms over bodies without triple patterns (graph-existence patterns)
+            ds, q = L.gen_scanfree_graphs(rng)
+            ops["scanfree_graph_family"] = ops.get("scanfree_graph_family", 0) + 1
+            cases.append({"ds": ds, "q": q, "query": L.print_query(q, rng, noise), "pyspec": L.spec_answer(ds, q)})
+            continue
         ds = L.gen_dataset(rng)
         g = L.Gen(rng, ds)
         q = g.query()
@@ -85,9 +91,9 @@ def gen_cases(ctx, n, noise=True):
     return cases, skipped, ops
 
 
-def evaluate(ctx, binpath, cases, stream, coq=True, known_ok=None):
+def evaluate(ctx, binpath, cases, stream, coq=True, known_ok=None, env=None):
     """Runs the implementation, the Coq Spec (and checks the Python transliteration against it) and compares."""
-    impl = ctx.run_impl(binpath, [{"ds": c["ds"], "query": c["query"], "plan": True} for c in cases])
+    impl = ctx.run_impl(binpath, [{"ds": c["ds"], "query": c["query"], "plan": bool(coq)} for c in cases], env=env)
     coqv = [None] * len(cases)
     if coq:
         exprs = []
@@ -249,6 +255,17 @@ def run(ctx):
         ctx.sample({"query": c["query"], "dataset": c["ds"], "answer_rows": len(c["pyspec"]["full"])})
     known_seen = {}
     evaluate(ctx, binpath, cases, "random", coq=True, known_ok=known_seen)
+    # wide joins under small thread pools: the parallel bind join (execute_bind_join) splits a left input of a prime number
+    # of rows; both entry points go through it.  The Spec side of these big cases is the Python transliteration only
+    # (validated against the Coq Spec on every case of the streams above).
+    for threads in (2, 4):
+        wide = []
+        for _ in range(6 if ctx.thorough else 2):
+            ds, q, nrows = L.gen_prime_wide(ctx.rng, threads)
+            wide.append({"ds": ds, "q": q, "query": L.print_query(q, ctx.rng, True), "pyspec": L.spec_answer(ds, q)})
+        evaluate(ctx, binpath, wide, "wide_prime_left_rows_threads_%d" % threads, coq=False, env={"RAYON_NUM_THREADS": str(threads)})
+        ctx.stream("wide_prime_left_rows_threads_%d" % threads, spec="python transliteration only (big cases)",
+                   left_rows=[len(c["ds"]["default"]) for c in wide])
     sizes = sorted(len(c["pyspec"]["full"]) for c in cases)
     ctx.stream("random", operator_counts=ops, generator_rejections=skipped,
                result_size_median=sizes[len(sizes) // 2], result_size_max=sizes[-1],
